@@ -119,29 +119,12 @@ Definition outcome_obs (o : option outcome) : list obs :=
   | None => []
   end.
 
-(* receiveUnaryResponse (connect.go:256-274) on the reader's first two results *)
+(* receiveUnaryResponse: ClientRecv.unary_outcome, projected to an observation *)
 Definition unary_result (on_special : N -> bytes -> outcome) (on_eof : outcome) (on_error : N -> outcome)
            (rs : list (uresult bytes)) : obs :=
-  let single (r : uresult bytes) : bytes + outcome :=
-      match r with
-      | UMsg m => inl m
-      | UErr REOF => inr on_eof
-      | UErr (RErr c) => inr (on_error c)
-      | USpecial fl d => inr (on_special fl d)
-      end in
-  match rs with
-  | r1 :: r2 :: _ =>
-    match single r1 with
-    | inr Clean => OErr code_unknown            (* stream ended before any message *)
-    | inr (Failed c) => OErr c
-    | inl m =>
-      match single r2 with
-      | inr Clean => OMsg m
-      | inr (Failed c) => OErr c                (* a failure after the first message keeps its code *)
-      | inl _ => OErr code_unknown              (* a second message *)
-      end
-    end
-  | _ => OErr code_unknown
+  match unary_outcome bytes on_special on_eof on_error rs with
+  | UOk m => OMsg m
+  | UFail c => OErr c
   end.
 
 Definition env_ok (c : envcase) : bool :=
